@@ -153,6 +153,16 @@ func checkC20(c *Ctx) {
 					continue
 				}
 				base, field, op, ok := lockOp(core.CallOf(in))
+				if !ok {
+					// a call of a method of the same monitor that takes (and releases) the lock itself is a critical section that has ended
+					if cl := core.CallOf(in); cl != nil && cl.Static != nil && len(cl.Common.Args) > 0 && la.locks[cl.Static] != nil && len(la.locks[cl.Static].acquiresOnRecv) > 0 {
+						if _, isWrapper := lockWrappers[cl.Static]; !isWrapper {
+							for lf := range la.locks[cl.Static].acquiresOnRecv {
+								base, field, op, ok = core.Term(cl.Common.Args[0]), lf, "Unlock", true
+							}
+						}
+					}
+				}
 				if !ok || (op != "Unlock" && op != "RUnlock") {
 					continue
 				}
